@@ -78,6 +78,20 @@ func mutateRange(rp *iavl.RangeProof) (out []*iavl.RangeProof, labels []string) 
 				out = append(out, c)
 				labels = append(labels, fmt.Sprintf("%s[%d].%s", name, i, []string{"height", "size", "version", "left", "right"}[f]))
 			}
+			// the side the path descends into carries no hash; a node that names both is not the
+			// node the tree holds
+			c := cp()
+			nd := &get(c)[i]
+			filler := bytes.Repeat([]byte{0xA5}, 32)
+			if len(nd.Left) == 0 {
+				nd.Left = filler
+				out = append(out, c)
+				labels = append(labels, fmt.Sprintf("%s[%d].left-added", name, i))
+			} else if len(nd.Right) == 0 {
+				nd.Right = filler
+				out = append(out, c)
+				labels = append(labels, fmt.Sprintf("%s[%d].right-added", name, i))
+			}
 		}
 	}
 	mutPath(func(c *iavl.RangeProof) iavl.PathToLeaf { return c.LeftPath }, "left_path", len(rp.LeftPath))
@@ -234,6 +248,26 @@ func (s *multiSim) prove(st *multiStep) {
 					p.Ops[1] = rootmulti.NewMultiStoreProofOp(mop.Key, rootmulti.NewMultiStoreProof(infos)).ProofOp()
 					bad(label, verify(p, root, kp, want, present))
 					nmut++
+				}
+			}
+			// a second entry for the queried store, placed before the honest one and naming the
+			// root of a tree the prover made up: the made-up value must not verify
+			forgedVal := append([]byte("forged-"), key...)
+			if ft, err := iavl.NewMutableTree(simdb.New(), 16); err == nil {
+				ft.Set(key, forgedVal)
+				ft.Set(append([]byte{0xff}, key...), []byte{1})
+				if _, _, err := ft.SaveVersion(); err == nil {
+					if _, frp, err := ft.GetWithProof(key); err == nil && frp != nil {
+						infos := append([]rootmulti.StoreInfo{{Name: name, Core: rootmulti.StoreCore{CommitID: types.CommitID{Version: st.Ver, Hash: ft.Hash()}}}}, mop.Proof.StoreInfos...)
+						p := cloneProof(res.Proof)
+						p.Ops[0] = iavl.NewValueOp(key, frp).ProofOp()
+						p.Ops[1] = rootmulti.NewMultiStoreProofOp(mop.Key, rootmulti.NewMultiStoreProof(infos)).ProofOp()
+						if prt.VerifyValue(p, root, kp, forgedVal) == nil {
+							s.violate("altered-proof-accepted", kind+"/store_info-duplicated-name", fmt.Sprintf("store %s key %x height %d: a value that was never stored (%x) verifies against the committed root when the proof lists the store twice", name, key, st.Ver, forgedVal))
+						}
+						nmut++
+						s.res.Probe("proof_forged_substore_offered")
+					}
 				}
 			}
 		}
